@@ -14,6 +14,7 @@ from vf import gen as G, oracle as O, snapshot as S
 from vf.checks.common import Case, call, exc_text
 
 ID = "C02"
+TECHNIQUE = "runtime monitoring: reference-model monitor (exact winding-number oracle) on membership queries"
 LEVEL = "exploration"
 RULE = ("random shapes of every kind (simple, connected with holes, disjoint, unbounded variants, Empty, Whole), "
         "numeric kinds int/Fraction/float, degrees 1-3 (polygons, n-arc circles, Bezier blobs, mixed chains) x query "
